@@ -10,6 +10,7 @@ import (
 
 	"pgregory.net/rapid"
 
+	"testing"
 	"verifharness/kit"
 	"verifharness/refmodel"
 )
@@ -460,4 +461,78 @@ func init() {
 			"ping without `a`: a response or error 203 are both accepted",
 			"quiescence barrier: serve loop parked and every module goroutine blocked on two consecutive looks; missing replies are re-examined after a 2 s grace wait"},
 		genC08, runC08)
+}
+
+// FuzzC08Datagram: byte-level coverage-guided target (thorough tier). Any datagram, delivered to a
+// fresh node from a fixed source, may cause at most one datagram, and only one addressed to that
+// source that echoes the datagram's `t` (as the harness's own bencode reader sees it).
+func FuzzC08Datagram(f *testing.F) {
+	for _, s := range []string{
+		"d1:ad2:id20:abcdefghij0123456789e1:q4:ping1:t2:aa1:y1:qe",
+		"d1:ad2:id20:abcdefghij01234567896:target20:mnopqrstuvwxyz123456e1:q9:find_node1:t0:1:y1:qe",
+		"d1:ad2:id20:abcdefghij01234567899:info_hash20:mnopqrstuvwxyz123456e1:q9:get_peers1:t3:\x00\xffe1:y1:qe",
+		"d1:ad2:id20:abcdefghij01234567896:target20:mnopqrstuvwxyz123456e1:q3:get1:t2:aa1:y1:qe",
+		"d1:q13:announce_peer1:t2:aa1:y1:qe",
+		"d1:q9:find_node1:t2:aa1:y1:qe",
+		"d1:ad2:id20:abcdefghij0123456789e1:q4:vote1:t2:aa1:y1:qe",
+		"d1:rd2:id20:abcdefghij0123456789e1:t2:aa1:y1:re",
+		"d1:eli201e1:xe1:t2:aa1:y1:ee",
+		"d1:y9:0000000001:02:001:y1:qe", // repeated key: found by this target, a false alarm of its first oracle
+	} {
+		f.Add([]byte(s), false)
+		f.Add([]byte(s), true)
+	}
+	f.Fuzz(func(t *testing.T, data []byte, dual bool) {
+		if len(data) > 2000 {
+			return
+		}
+		sv := newSrv(SrvOpts{NodeID: [20]byte{0xc8}, PeerStore: true})
+		defer sv.Close()
+		src := &net.UDPAddr{IP: net.IP{84, 1, 2, 3}, Port: 8403}
+		if dual {
+			src.IP = src.IP.To16()
+		}
+		sv.C.Inject(src, data)
+		if err := sv.C.Quiesce(barrierTimeout); err != nil {
+			t.Skip(err.Error())
+		}
+		outs := outsFrom(sv.C, 0)
+		if len(outs) > 1 {
+			t.Fatalf("VIOLATION-CANDIDATE C08:multiple-datagrams: datagram %q caused %d datagrams", data, len(outs))
+		}
+		if len(outs) == 0 {
+			return
+		}
+		o := outs[0]
+		if o.To == nil || o.To.String() != src.String() {
+			t.Fatalf("VIOLATION-CANDIDATE C08:wrong-destination: datagram %q from %v was answered to %v", data, src, o.To)
+		}
+		v, _, err := refmodel.Parse(data)
+		if err != nil || v.Kind != 'd' {
+			t.Fatalf("VIOLATION-CANDIDATE C08:reply-to-non-query: undecodable datagram %q was answered with %s", data, o.Describe())
+		}
+		// with repeated keys the library's decoder keeps the last one and this reader the first: the
+		// datagram is a query if any of its `y` entries says so
+		isQuery := false
+		for _, kv := range v.D {
+			if kv.K == "y" && kv.V.Kind == 's' && kv.V.S == "q" {
+				isQuery = true
+			}
+		}
+		if !isQuery {
+			t.Fatalf("VIOLATION-CANDIDATE C08:reply-to-non-query: non-query %q was answered with %s", data, o.Describe())
+		}
+		// the last `t` key wins in the library's decoder when keys repeat; accept any `t` value present
+		ok := false
+		for _, kv := range v.D {
+			if kv.K == "t" && kv.V.Kind == 's' && o.HasT && kv.V.S == o.T {
+				ok = true
+			}
+		}
+		if !ok && o.HasT {
+			if _, has := v.Get("t"); has {
+				t.Fatalf("VIOLATION-CANDIDATE C08:t-not-echoed: %q answered with t=%q", data, o.T)
+			}
+		}
+	})
 }
